@@ -133,7 +133,7 @@ class C03(Check):
     floor_nontrivial = 30
     required_counters = ("sample_rows_compared", "covariances_compared", "e2e_samples_compared", "hist_samples_compared")
     shards = (12, 16)
-    budget = (70, 600)
+    budget = (300, 600)
 
     def cases(self, tier, seed):
         q = tier == "quick"
